@@ -8,10 +8,16 @@ import (
 
 // fixed runs a few hand-made inputs first (edge cases that random generation rarely hits).
 func fixed(c *hlib.Ctx) {
+	nfixed := 0
 	emitDiag := func(s *soup3) {
 		s.compact()
-		b := s.build()
-		emit(c, "diag3", []string{s.iSection()}, diagString(s, b.m, true))
+		// every input in the declaration order and in a rotated order (NeedsRepair asked after
+		// SingularVertices / Orientable have built the vertex index)
+		for _, order := range [][]int{{0, 1, 2, 3}, {1 + nfixed%3, 0, 1 + (nfixed+1)%3, 1 + (nfixed+2)%3}} {
+			b := s.build()
+			emit(c, "diag3", []string{s.iSection(), oSection(order)}, diagString(s, b.m, true, order))
+		}
+		nfixed++
 	}
 	// empty mesh, single triangle
 	emitDiag(&soup3{})
@@ -54,6 +60,7 @@ func fixed(c *hlib.Ctx) {
 	emitDiag(band(5, false))
 	emitDiag(gridSurface(4, 4, true))
 	emitDiag(gridSurface(4, 4, false))
+	histFixed(c)
 	// nests of non-convex components: box > thick U/C > thin U/C in its material > small shapes in
 	// the arms (the bounding-box centre of the thin one lies in the notch), 2-D and 3-D
 	for v := 0; v < 12; v++ {
